@@ -116,7 +116,12 @@ fn drive<F: Fmt>(x: &[u8], canonical: bool) -> Drive {
             let _ = take_panic();
             return Drive { status: Status::ParsePanicked, viols, b1: None, obs };
         }
-        Ok(Err(_)) => {
+        Ok(Err(e)) => {
+            if canonical {
+                // remembered for the caller: a BUILDER output that its own parser rejects refutes "parsing the
+                // serialisation of a builder's value gives back the same logical content"
+                obs.insert(format!("canonical-input-rejected:{}", err_class(&e)), 1);
+            }
             verify_agrees::<F>(x, false, true, &mut viols, &mut obs);
             return Drive { status: if viols.is_empty() { Status::Rejected } else { Status::Accepted }, viols, b1: None, obs };
         }
@@ -266,7 +271,30 @@ fn make_input(seed_val: u64, seeds: &[Seed], e: Entry) -> (Vec<u8>, &'static str
     }
     let mut rng = Rng::derive(seed_val, mix64(mix64(e.fmt as u64, fnv64(s.name.as_bytes())), u64::from(e.mutation)));
     let others: Vec<&[u8]> = seeds.iter().filter(|o| o.format == s.format && o.name != s.name).map(|o| o.bytes.as_slice()).take(6).collect();
-    mutate::mutate(&mut rng, &s.bytes, &others, is_text(s.format))
+    let (mut x, kind) = mutate::mutate(&mut rng, &s.bytes, &others, is_text(s.format));
+    // archive indices carry a hash over their footer fields: without repairing it, every mutation of a footer field
+    // (version, widths, element count) is rejected at the door and the writer never sees an unusual-but-accepted footer.
+    // Half of the mutants get the hash recomputed (harness MD5 over the 12 field bytes padded to 20, first 8 bytes).
+    if matches!(s.format, "ArchiveIndex" | "ArchiveGroup") && x.len() >= 28 && x[x.len() - 13] == 8 && rng.bool() {
+        let n = x.len();
+        if rng.chance(1, 3) {
+            // and a third of those also get the element count nudged (the count is what ties the footer to the pages)
+            let c = u32::from_le_bytes([x[n - 12], x[n - 11], x[n - 10], x[n - 9]]);
+            let c2 = match rng.below(4) {
+                0 => c.wrapping_add(1),
+                1 => c.wrapping_sub(1),
+                2 => c.wrapping_add(2),
+                _ => c / 2,
+            };
+            x[n - 12..n - 8].copy_from_slice(&c2.to_le_bytes());
+        }
+        let mut data = x[n - 20..n - 8].to_vec();
+        data.resize(20, 0);
+        let h = md5::compute(&data).0;
+        x[n - 8..].copy_from_slice(&h[..8]);
+        return (x, "footer-hash-repaired");
+    }
+    (x, kind)
 }
 
 fn all_seeds(seed_val: u64) -> (Vec<Seed>, usize, Vec<String>) {
@@ -282,6 +310,7 @@ fn signature(fmt: &str, v: &Viol) -> String {
 
 fn summary(relation: &str) -> &'static str {
     match relation {
+        "builder-output-rejected" => "the serialisation of a value produced by the format's own builder is rejected by the format's parser",
         "build-fails" => "an accepted input cannot be written back out (build returns Err)",
         "build-panics" => "build() panics on a value the parser accepted",
         "reparse-fails" => "the output of build(parse(x)) is rejected by the parser",
@@ -364,7 +393,15 @@ fn worker_main(args: &[String]) -> ! {
             *counters.entry(k.clone()).or_insert(0) += v;
         }
         match d.status {
-            Status::Rejected => *counters.entry(format!("{fname}.rejected")).or_insert(0) += 1,
+            Status::Rejected => {
+                *counters.entry(format!("{fname}.rejected")).or_insert(0) += 1;
+                if e.mutation == 0 && !cross && !seeds[e.seed].fixture && seeds[e.seed].name.starts_with("builder/") {
+                    let class = d.obs.keys().find_map(|k| k.strip_prefix("canonical-input-rejected:")).unwrap_or("rejected").to_string();
+                    let v = Viol { relation: "builder-output-rejected", class, detail: json!({"builder_seed": seeds[e.seed].name}) };
+                    let doc = json!({"sig": signature(fname, &v), "relation": v.relation, "detail": {"format": fname, "seed_name": seeds[e.seed].name, "mutation": 0, "mutation_kind": kind, "plan": [e.fmt, e.seed, e.mutation], "input_len": x.len(), "input_fnv": fnv64(&x).to_string(), "input": hex_short(&x, 2048), "what": v.detail}});
+                    let _ = writeln!(out, "V {doc}");
+                }
+            }
             Status::ParsePanicked => *counters.entry(format!("{fname}.parse_panicked_skipped")).or_insert(0) += 1,
             Status::Accepted => {
                 *counters.entry(format!("{fname}.accepted")).or_insert(0) += 1;
